@@ -204,6 +204,8 @@ impl<U> Filter<U> {
         &self,
         ctx: &'e ExecutionContext<'e, U>,
     ) -> Result<bool, SchemeMismatchError> {
+        #[cfg(feature = "verif-hooks")]
+        crate::verif::yield_point("filter.execute");
         if ctx.scheme() == &self.scheme {
             Ok(self.root_expr.execute(ctx))
         } else {
@@ -229,6 +231,8 @@ impl<U> FilterValue<U> {
         &self,
         ctx: &'e ExecutionContext<'e, U>,
     ) -> Result<Result<LhsValue<'e>, Type>, SchemeMismatchError> {
+        #[cfg(feature = "verif-hooks")]
+        crate::verif::yield_point("filter_value.execute");
         if ctx.scheme() == &self.scheme {
             Ok(self.root_expr.execute(ctx))
         } else {
